@@ -312,6 +312,14 @@ func programs(thorough bool) []program {
 			}
 		}
 	}
+	// boundary-index operations against every operation of the alphabet
+	for _, pre := range [][]int{nil, preShare} {
+		for _, b := range boundaryOps {
+			for j := 0; j < A; j++ {
+				add(pre, []int{b}, []int{j})
+			}
+		}
+	}
 	// three threads, one operation each
 	for i := 0; i < A; i++ {
 		for j := i; j < A; j++ {
@@ -352,7 +360,21 @@ func isAdd(i int) bool { return i <= 6 || i == 13 }
 func init() {
 	// op 16: pre-history helper: TrustedAdd(2, valid share of signer 2)
 	ops = append(ops, trustedAdd("TrustedAdd(2,valid)", 2, func(f *fixture) []byte { return f.valid[2] }))
+	// ops 17..20: the boundary index n (one past the last signer) on every indexed operation
+	ops = append(ops,
+		trustedAdd("TrustedAdd(n,valid)", N, func(f *fixture) []byte { return f.valid[0] }),
+		verifyAndAdd("VerifyAndAdd(n,valid)", N, func(f *fixture) []byte { return f.valid[0] }),
+		hasShare(N),
+		opDef{"VerifyShare(n,valid)",
+			func(f *fixture, o crypto.ThresholdSignatureParticipant) string {
+				v, err := o.VerifyShare(N, f.valid[0])
+				return fmt.Sprintf("%v,%s", v, errc(err))
+			},
+			func(f *fixture, m *model) string { return "false,input" }},
+	)
 }
+
+var boundaryOps = []int{17, 18, 19, 20}
 
 // ---------------------------------------------------------------- linearizability
 
@@ -697,7 +719,7 @@ func main() {
 	run.Set("max_schedules_per_program", me)
 	run.Set("distinct_outcomes_total", totalOutcomes)
 	run.Set("programs_with_more_than_one_outcome", multi)
-	run.Set("rule", "program = sequential pre-history + 2-3 threads with 1-2 operations each over the 14-operation alphabet (all unordered pairs from 6 pre-states: empty, one valid share, one wrong share, full valid pool, full pool with a wrong well-formed share, full pool with a malformed share; all unordered triples; all 2x2 programs over the 8 core operations) on ONE shared real participant object (n=3,t=1); for each program ALL schedules with at most `preemption_bound` preemptions (per program class) over scheduling points = every Lock/RLock/Unlock/RUnlock of the object's RWMutex (modelled blocking) + every statement of bls_thresholdsign.go methods; each complete schedule yields a call/return history (plus a final sequential observer) that must be linearizable w.r.t. the sequential reference model; <= t+1 shares retained. executions = schedules run; distinct_nontrivial = programs; states = complete executions (stateless search).")
+	run.Set("rule", "program = sequential pre-history + 2-3 threads with 1-2 operations each over the 14-operation alphabet (all unordered pairs from 6 pre-states: empty, one valid share, one wrong share, full valid pool, full pool with a wrong well-formed share, full pool with a malformed share; each of the 4 boundary-index operations (index n) against every operation; all unordered triples; all 2x2 programs over the 8 core operations) on ONE shared real participant object (n=3,t=1); for each program ALL schedules with at most `preemption_bound` preemptions (per program class) over scheduling points = every Lock/RLock/Unlock/RUnlock of the object's RWMutex (modelled blocking) + every statement of bls_thresholdsign.go methods; each complete schedule yields a call/return history (plus a final sequential observer) that must be linearizable w.r.t. the sequential reference model; <= t+1 shares retained. executions = schedules run; distinct_nontrivial = programs; states = complete executions (stateless search).")
 	run.Assume("sequentially consistent interleavings at statement granularity of the instrumented Go file; calls into BLS Sign/Verify and C are atomic steps", "RWMutex modelled without writer preference (superset of lock-acquisition orders)", "n=3, t=1, one message/tag; validity of shares decided by byte equality with the library-made shares (threshold arithmetic itself is C06's business)")
 	run.Finish()
 }
